@@ -93,3 +93,45 @@ def marking_rounds_before(lab, H, m, upto_seq=None):
         if e[1] == 'store' and e[2] == 'set_recipients_delivered' and H.sid(e[3]) == H.sid(id):
             n += 1
     return n
+
+
+def outran_enqueue(lab, H, m):
+    """The storage announced the freshly written id through wait() and an attempt of it
+    started before write() had even returned the id to Queue.enqueue()."""
+    wseq = aseq = None
+    for s, e in enumerate(lab.events):
+        if e[1] == 'store' and e[2] == 'write' and e[3] == m and wseq is None:
+            wseq = s
+        if e[1] == 'store_ret' and e[2] == 'write' and e[3] == m:
+            wseq = s       # the write's return reached Queue.enqueue only here
+        if aseq is None and e[1] == 'attempt_start' and e[2] == m:
+            aseq = s
+    return wseq is not None and aseq is not None and aseq < wseq
+
+
+def pool_cycle_deadlock(lab):
+    """Direct evidence of the store-pool <-> relay-pool cycle: at the last full quiescence both
+    bounded pools have no free slot although nothing is parked by the harness (every slot is
+    held by a greenlet that is itself blocked spawning into the other pool)."""
+    last = None
+    for e in lab.events:
+        if e[1] == 'fullq' and len(e) > 2:
+            last = e[2]
+        elif e[1] == 'final' and len(e) > 5:
+            last = e[5]
+    return bool(last) and last[0] == 0 and last[1] == 0
+
+
+def stale_notice(lab, H, id, upto_seq, before_ts=None):
+    """A wait() notice of `id` consumed although the queue had already been told about the id
+    (its own write -- redis / cloud+mq announce own writes --, a load entry or an earlier notice)."""
+    told = any(e[1] == 'store' and e[2] == 'write' and H.sid(e[5]) == id for e in lab.events)
+    for s in range(0, upto_seq):
+        e = lab.events[s]
+        if e[1] == 'store' and e[2] == 'wait' and any(H.sid(i) == id for ts, i in e[3]):
+            if told:
+                return True
+            told = True
+        elif e[1] == 'store' and e[2] == 'load_entry' and H.sid(e[3]) == id:
+            told = True
+    return False
